@@ -58,6 +58,10 @@ def call(repo, it, obj, name, **args):
     return rets, raises, k, fn
 
 
+# the integer inputs the property quantifies over: cutoff, start, and the (sorted) steps through their extremes / count
+INPUT_SYMBOLS = {"cutoff", "start", "fh[0]", "fh[-1]", "len(fh)"}
+
+
 def cutoff_rejections(rets):
     """Conditions on the integer cutoff alone under which some trace raises although other traces return:
     [(facts about `cutoff`, raise node)].  The property quantifies over *every* integer cutoff."""
@@ -70,8 +74,11 @@ def cutoff_rejections(rets):
         node = r[0] if isinstance(r, tuple) else r.node
         if facts is None:
             continue
-        cond = [f for f, _ in facts.items if f.symbols() == {"cutoff"}]
-        if cond and not any(repr(cond) == repr(c) for c, _ in out):
+        # conditions assumed on the raising trace (axioms such as len() >= 0 are not conditions)
+        assumed = [f for f, o in facts.items if str(o).startswith(("guard", "negated guard", "truthy", "falsy", "negated equality"))]
+        cond = [f for f in assumed if f.symbols() and f.symbols() <= INPUT_SYMBOLS]
+        # only if the whole path condition is about the integer inputs is the rejected input set known exactly
+        if cond and len(cond) == len(assumed) and not any(repr(cond) == repr(c) for c, _ in out):
             out.append((cond, node))
     return out
 
@@ -126,9 +133,12 @@ def judge(ctx, rule, construct, rets, want, wf, loc, what):
     rej = cutoff_rejections(rets)
     if rej:
         cond, node = rej[0]
-        ctx.violation(rule, construct + ":every-cutoff", "%s: integer cutoffs with %s are rejected (line %s); only a missing "
-                      "cutoff may be" % (what, " and ".join("%r <= 0" % f for f in cond), getattr(node, "lineno", "?")), loc,
-                      witness={"rejected_cutoffs": [repr(f) for f in cond]})
+        syms = set().union(*[f.symbols() for f in cond])
+        suffix = ":every-cutoff" if syms == {"cutoff"} else ":every-input"
+        ctx.violation(rule, construct + suffix, "%s: valid integer inputs with %s are rejected (raise at line %s); the conversions "
+                      "are defined for every integer cutoff / start and every duplicate-free set of steps, including the empty one"
+                      % (what, " and ".join("%r <= 0" % f for f in cond), getattr(node, "lineno", "?")), loc,
+                      witness={"rejected_inputs": [repr(f) + " <= 0" for f in cond]})
     ctx.ok(rule, construct, "%s == %r" % (what, want), loc)
     return vals[0]
 
@@ -596,7 +606,7 @@ TRANSPARENT_DECORATORS = {"builtins.property", "builtins.staticmethod", "builtin
 KEYED_ON_ALL_ARGUMENTS = {"functools.lru_cache", "functools.cache"}
 
 
-def rule_decorators(ctx, repo):
+def rule_decorators(ctx, repo, rule="R1"):
     """The bodies interpreted by R1-R3 are what callers get only if the decorators do not change the result: every
     decorator of a ForecastingHorizon method is transparent, an all-arguments cache, or a repo-local wrapper whose
     memo key is checked here (H2: results are not memoised under a key that misses something they depend on)."""
@@ -610,24 +620,82 @@ def rule_decorators(ctx, repo):
             sym = repo.resolve_expr(mod, target)
             dotted_name = sym.dotted if sym is not None else ("builtins." + target.id if isinstance(target, ast.Name) else None)
             if isinstance(target, ast.Attribute) and target.attr in ("setter", "getter", "deleter"):
-                ctx.ok("R1", cons, "property accessor", loc, nontrivial=False)
+                ctx.ok(rule, cons, "property accessor", loc, nontrivial=False)
             elif dotted_name in TRANSPARENT_DECORATORS:
-                ctx.ok("R1", cons, "transparent decorator", loc, nontrivial=False)
+                ctx.ok(rule, cons, "transparent decorator", loc, nontrivial=False)
             elif dotted_name in KEYED_ON_ALL_ARGUMENTS:
-                ctx.ok("R1", cons, "cache keyed on the receiver object (kept alive) and every argument", loc)
+                ctx.ok(rule, cons, "cache keyed on the receiver object (kept alive) and every argument", loc)
             elif sym is not None and sym.kind == "func":
-                judge_wrapper(ctx, repo, cons, sym, fn, loc)
+                judge_wrapper(ctx, repo, cons, sym, fn, loc, rule)
             else:
-                ctx.undecided("R1", cons, "decorator %r is not interpreted: the method body analysed by R1-R3 may not be what "
+                ctx.undecided(rule, cons, "decorator %r is not interpreted: the method body analysed by R1-R3 may not be what "
                               "callers get" % ast.unparse(target), loc)
 
 
-def judge_wrapper(ctx, repo, cons, sym, method, loc):
+def bare_receiver(key, recv):
+    """Does the receiver object itself (not an attribute / method result of it) occur in the key expression?"""
+    inner = set()
+    for n in ast.walk(key):
+        if isinstance(n, ast.Attribute) and isinstance(n.value, ast.Name) and n.value.id == recv:
+            inner.add(id(n.value))
+        if isinstance(n, ast.Call) and isinstance(n.func, ast.Name) and n.func.id in ("id", "type", "len", "repr", "str"):
+            inner.update(id(a) for a in n.args if isinstance(a, ast.Name))
+    return any(isinstance(n, ast.Name) and n.id == recv and id(n) not in inner for n in ast.walk(key))
+
+
+def self_reads(repo, cls, node, recv, depth=0, seen=None):
+    """Instance attributes of ``recv`` read by ``node`` (an expression or function), through properties and methods of
+    the class; None if the receiver escapes (passed on as an argument, aliased) so that the set is not known."""
+    seen = set() if seen is None else seen
+    if depth > 6:
+        return None
+    out = set()
+    body = node.body if isinstance(node, (ast.FunctionDef, ast.AsyncFunctionDef)) else [node]
+    attr_bases = set()
+    for b in body:
+        for n in ast.walk(b):
+            if isinstance(n, ast.Attribute) and isinstance(n.value, ast.Name) and n.value.id == recv:
+                attr_bases.add(id(n.value))
+                hit = repo.lookup_method(cls, n.attr)
+                prop = None
+                for k in repo.mro(cls):
+                    if hasattr(k, "properties") and n.attr in k.properties and "getter" in k.properties[n.attr]:
+                        prop = k.properties[n.attr]["getter"]
+                        break
+                target = prop or (hit[1] if hit else None)
+                if target is not None:
+                    if id(target) in seen:
+                        continue
+                    seen.add(id(target))
+                    sub = self_reads(repo, cls, target, target.args.args[0].arg, depth + 1, seen)
+                    if sub is None:
+                        return None
+                    out |= sub
+                elif n.attr.startswith("__") or n.attr in ("max", "min"):
+                    out.add("_values")  # delegated to the wrapped index
+                else:
+                    out.add(n.attr)
+    for b in body:
+        for n in ast.walk(b):
+            if isinstance(n, ast.Name) and n.id == recv and isinstance(n.ctx, ast.Load) and id(n) not in attr_bases:
+                par_ok = False
+                for c in ast.walk(b):
+                    if isinstance(c, ast.Call) and isinstance(c.func, ast.Name) and c.func.id in ("type", "len", "isinstance") \
+                            and any(a is n for a in c.args):
+                        par_ok = True
+                        if c.func.id == "len":
+                            out.add("_values")
+                if not par_ok:
+                    return None
+    return out
+
+
+def judge_wrapper(ctx, repo, cons, sym, method, loc, rule="R1"):
     dec_fn, dmod = sym.target, sym.module
     inner = [n for n in dec_fn.body if isinstance(n, ast.FunctionDef)]
     rets = [r.value for r in ast.walk(dec_fn) if isinstance(r, ast.Return) and r in dec_fn.body]
     if len(inner) != 1 or len(rets) != 1 or not (isinstance(rets[0], ast.Name) and rets[0].id == inner[0].name):
-        ctx.undecided("R1", cons, "decorator does not have the shape `def wrapper(...): ...; return wrapper`", loc)
+        ctx.undecided(rule, cons, "decorator does not have the shape `def wrapper(...): ...; return wrapper`", loc)
         return
     w = inner[0]
     wrapped = dec_fn.args.args[0].arg if dec_fn.args.args else None
@@ -640,6 +708,12 @@ def judge_wrapper(ctx, repo, cons, sym, method, loc):
             if isinstance(d, ast.Call) and not (isinstance(d.func, ast.Name) and d.func.id in ("dict", "list", "set", "OrderedDict")):
                 continue
             containers[n.id] = d
+    for stmt in dec_fn.body:  # containers created once per decorated method (closure of the wrapper)
+        if isinstance(stmt, ast.Assign) and len(stmt.targets) == 1 and isinstance(stmt.targets[0], ast.Name):
+            v = stmt.value
+            if isinstance(v, (ast.Dict, ast.List, ast.Set)) or (isinstance(v, ast.Call) and isinstance(v.func, ast.Name)
+                                                                  and v.func.id in ("dict", "list", "set", "OrderedDict")):
+                containers[stmt.targets[0].id] = v
     stores = [n for n in ast.walk(w) if isinstance(n, ast.Subscript) and isinstance(n.ctx, ast.Store)
               and isinstance(n.value, ast.Name) and n.value.id in containers]
     if not containers:
@@ -649,13 +723,14 @@ def judge_wrapper(ctx, repo, cons, sym, method, loc):
             [ast.unparse(a) for a in calls[0].args] + sorted(k.arg or "**" for k in calls[0].keywords) == \
             [("*" + w.args.vararg.arg) if False else p for p in params] + ([] if w.args.kwarg is None else ["**"])
         if plain_call and not w.args.vararg:
-            ctx.ok("R1", cons, "wrapper returns the method's result for the same arguments", loc)
+            ctx.ok(rule, cons, "wrapper returns the method's result for the same arguments", loc)
         else:
-            ctx.undecided("R1", cons, "repo-local decorator not interpreted", loc)
+            ctx.undecided(rule, cons, "repo-local decorator not interpreted", loc)
         return
     if not stores:
-        ctx.undecided("R1", cons, "wrapper uses the module-level container(s) %s in a way that is not understood" % sorted(containers), loc)
+        ctx.undecided(rule, cons, "wrapper uses the module-level container(s) %s in a way that is not understood" % sorted(containers), loc)
         return
+    cls = repo.cls(FH_PATH + ":ForecastingHorizon")
     for st_ in stores:
         key = astq.inline_locals(w, st_.slice)
         ids = [c for c in ast.walk(key) if isinstance(c, ast.Call) and isinstance(c.func, ast.Name) and c.func.id == "id"
@@ -665,19 +740,32 @@ def judge_wrapper(ctx, repo, cons, sym, method, loc):
         by_identity = [c for c in ids if c.args and isinstance(c.args[0], ast.Name) and c.args[0].id == recv]
         if by_identity and not any(isinstance(n, ast.Name) and n.id == recv and not any(n is c.args[0] for c in by_identity)
                                    for n in ast.walk(key)):
-            ctx.violation("R1", cons, "results of %s are memoised in the module-level %s under a key that contains only id(%s) of the "
+            ctx.violation(rule, cons, "results of %s are memoised in the long-lived %s under a key that contains only id(%s) of the "
                           "horizon: the entry outlives the object, and a later horizon that gets the same id (after garbage "
                           "collection) receives the other horizon's conversion -- the key misses the steps the result depends on"
                           % (method.name, st_.value.id, recv), loc,
                           witness={"history": "convert horizon A, drop it, create horizon B with other steps, convert B with the same cutoff"})
-        elif recv in names and all(p in names for p in params):
-            ctx.ok("R1", cons, "memo key contains the receiver object and every argument", loc)
+        elif recv in names and all(p in names for p in params) and bare_receiver(key, recv):
+            ctx.ok(rule, cons, "memo key contains the receiver object and every argument", loc)
+        elif recv in names and all(p in names for p in params) and not ids:
+            # keyed on parts of the receiver's state: every attribute the method reads must be covered
+            need = self_reads(repo, cls, method, method.args.args[0].arg)
+            have = self_reads(repo, cls, key, recv)
+            if need is None or have is None:
+                ctx.undecided(rule, cons, "state read by %s / by the memo key %r not understood" % (method.name, ast.unparse(key)), loc)
+            elif need <= have:
+                ctx.ok(rule, cons, "memo key covers every attribute %s reads (%s) and every argument" % (method.name, sorted(need)), loc)
+            else:
+                ctx.violation(rule, cons, "results of %s are memoised in %s under the key %s, which covers %s of the horizon but the "
+                              "result also depends on %s: two horizons that agree on the key share one entry"
+                              % (method.name, st_.value.id, ast.unparse(key), sorted(have), sorted(need - have)), loc,
+                              witness={"history": "convert a relative horizon, then an absolute horizon with the same numbers and cutoff"})
         else:
             missing = [p for p in params if p not in names]
             if missing and not ids:
-                ctx.violation("R1", cons, "results of %s are memoised in %s under a key that omits %s" % (method.name, st_.value.id, missing), loc)
+                ctx.violation(rule, cons, "results of %s are memoised in %s under a key that omits %s" % (method.name, st_.value.id, missing), loc)
             else:
-                ctx.undecided("R1", cons, "memo key %r not understood" % ast.unparse(key), loc)
+                ctx.undecided(rule, cons, "memo key %r not understood" % ast.unparse(key), loc)
 
 
 def run_rules(ctx):
